@@ -102,3 +102,14 @@ Definition run_remove (p : remove_prog) (cleanup : network -> network) (i : Z) (
   | CleanupAfter => cleanup (if mem i (ids_of (rp_dict p) n) then del_from (rp_dict p) i n else n)
   | CleanupNone => if mem i (ids_of (rp_dict p) n) then del_from (rp_dict p) i n else n
   end.
+
+(* ---- LaneletNetwork.create_from_lanelet_list(lanelets, cleanup_ids) as parsed: a new network receives a deep copy of
+   every listed lanelet (a network made from a list of lanelets holds lanelets only); when cleanup_ids is set the
+   cleanup methods named in fl_cleanups run on it in that order; the spatial index is outside this model (C06). *)
+Inductive ckind := CkLanelets | CkSigns | CkLights.
+Record fromlist_prog := { fl_deepcopy : bool; fl_cleanups : list ckind }.
+Definition run_from_list (p : fromlist_prog) (clean : ckind -> network -> network) (cleanup_ids : bool)
+                         (ls : list Z) (n : network) : network :=
+  let base := mkN (filter (fun l => mem (l_id l) ls) (lanelets n)) [] [] [] in
+  if cleanup_ids then fold_left (fun m k => clean k m) (fl_cleanups p) base else base.
+
